@@ -115,7 +115,7 @@ class ValidateNamedTypes(Contract):
     property_ids = ('C12',)
     params = ['self']
     self_class = 'GraphQLSchema'
-    timeout_ms = 8000
+    timeout_ms = 20000
 
     def args(self, en, names):
         self.A = super().args(en, names)
